@@ -614,6 +614,7 @@ func partReceiptsRealBinary(c *check.Ctx, a *acc) {
 		panic(err)
 	}
 	defer p.Kill()
+	started := time.Now()
 	for k := 0; k < 1000 && hds.Secret() == ""; k++ {
 		time.Sleep(10 * time.Millisecond)
 	}
@@ -665,6 +666,39 @@ func partReceiptsRealBinary(c *check.Ctx, a *acc) {
 	}
 	c.Coverage["real_binary_receipts_valid"] = valid
 	c.Coverage["real_binary_receipts_invalid"] = invalid
+	// late submissions: the queue is still consumed and receipts are still
+	// forwarded when the process has been up for a while (a consumer or a
+	// forwarder living on a context with a deadline would have stopped)
+	upFor := time.Duration(c.Pick(20, 75)) * time.Second
+	if d := upFor - time.Since(started); d > 0 {
+		time.Sleep(d)
+	}
+	late := receiptCases(rand.New(rand.NewSource(c.Seed*53+11)), "late", 8)
+	lateValid := 0
+	for _, rc := range late {
+		if !rc.Valid {
+			continue
+		}
+		lateValid++
+		a, _, err := cl.Do(&hagallpb.ReceiptRequest{Type: d.TReceiptReq, Timestamp: d.NewTag(), RequestId: cl.NextReqID(), Receipt: rc.Receipt, Hash: rc.Hash, Signature: rc.Sig})
+		if err != nil || a == nil || a.Type != d.TReceiptResp {
+			c.Report(c19f("answer/unexpected-error", "real-binary-late", "real binary, up for %v: the valid receipt %q was answered %v (%v)", time.Since(started).Round(time.Second), rc.Receipt, a, err))
+		}
+	}
+	if !awaitForwards(p) {
+		c.Report(c19f("forward/valid-receipt-not-forwarded", "real-binary-late", "real binary, up for %v: the receipt handler is not waiting for receipts any more (its goroutine is gone or stuck): accepted receipts stay in the queue", time.Since(started).Round(time.Second)))
+	}
+	lateByText := map[string]int{}
+	for _, po := range ncs.Posts() {
+		lateByText[po.Receipt]++
+	}
+	for _, rc := range late {
+		if rc.Valid && lateByText[rc.Receipt] != 1 {
+			c.Report(c19f("forward/valid-receipt-not-forwarded", "real-binary-late", "real binary, up for %v: the valid receipt %q was answered accepted but POSTed %d times", time.Since(started).Round(time.Second), rc.Receipt, lateByText[rc.Receipt]))
+		}
+	}
+	c.Coverage["real_binary_late_receipts_valid"] = lateValid
+	c.Coverage["real_binary_uptime_at_late_submission"] = upFor.String()
 	a.add(len(cases), valid+invalid, "E7: the same triples submitted to the real binary (cmd/main.go wiring of the receipt queue, the receipt handler and HAGALL_NCS_ENDPOINT) with a fake credit service: valid ones POSTed exactly once, invalid ones never",
 		map[string]any{"engine": "C19 real binary", "valid": valid, "invalid": invalid})
 }
@@ -673,8 +707,18 @@ func init() {
 	registry["C19"] = func(c *check.Ctx) int {
 		c.Level = "fault_enumeration"
 		a := &acc{}
+		// the real-binary part needs the process to have been up for a while before
+		// its last phase: it runs next to the lab parts
+		a2 := &acc{}
+		var wg sync.WaitGroup
+		wg.Add(1)
+		go func() {
+			defer wg.Done()
+			partReceiptsRealBinary(c, a2)
+		}()
 		partReceipts(c, a)
-		partReceiptsRealBinary(c, a)
+		wg.Wait()
+		a.add(a2.eval, a2.nontrivial, strings.Join(a2.rules, " || "), a2.samples...)
 		return a.finish(c)
 	}
 }
